@@ -510,6 +510,14 @@ def mk_app(f, args=(), kw=()):
                 pass
         if isinstance(o, TupleV) and all(isinstance(p, Const) for p in (lo, hi, step)):
             return TupleV(o.items[slice(lo.v, hi.v, step.v)], o.kind)
+        if is_app(o, "cat") and step == NONE and isinstance(o.args[0], Const) and isinstance(o.args[0].v, bytes):
+            c = o.args[0].v            # slicing a concatenation with a constant prefix
+            lo_v = 0 if lo == NONE else lo.v if isinstance(lo, Const) else None
+            if isinstance(lo_v, int) and lo_v >= 0:
+                if isinstance(hi, Const) and isinstance(hi.v, int) and lo_v <= hi.v <= len(c):
+                    return Const(c[lo_v:hi.v])
+                if hi == NONE and lo_v <= len(c):
+                    return mk_app("cat", (Const(c[lo_v:]),) + tuple(o.args[1:]))
         if lo == NONE and hi == NONE and isinstance(step, Const) and step.v == -1:
             return mk_app("rev", (o,))
         if lo == NONE and hi == NONE and step == NONE:
